@@ -6,7 +6,7 @@ R10c cap (max_errors) placement and relation                     R10d collect_er
 import ast
 from typing import Dict, List, Set, Tuple
 
-from ..cfg import analysis, FuncAnalysis, Node, N, E, is_handle_error_call, is_forced, stmt_call
+from ..cfg import analysis, FuncAnalysis, Node, N, E, is_handle_error_call, is_forced, stmt_call, decompose
 from ..lib import prov, call_index, handler_nodes, try_of_handler, enclosing_handler, opt_attr
 from ..model import AnalysisError, FuncInfo, call_attr, kwarg, unparse, walk_shallow, norm_stmt, names_in
 from . import c04
@@ -379,8 +379,75 @@ def r10f(run):
     run.floor("R10f", "parameter rewrites in Options.__init__", total, 3)
 
 
+def r10h(run):
+    """the merge record is complete: every option the caller passed is recorded in `_options`, whatever its value.  The
+    stores into the record sit in the loop over the constructor's locals under three guards only: the value is not the
+    `unprovided` sentinel, the name is not private, the name is an option attribute"""
+    f = run.repo.func("utype.parser.options", "Options.__init__")
+    fa = analysis(f)
+    # the record: the local published as self._options
+    rec = {unparse(n.ast.value) for n in fa.cfg.nodes if n.kind == "stmt" and isinstance(n.ast, ast.Assign)
+           and unparse(n.ast.targets[0]) == "self._options" and isinstance(n.ast.value, ast.Name)}
+    stores = [n for n in fa.cfg.nodes if n.kind == "stmt" and isinstance(n.ast, ast.Assign)
+              and isinstance(n.ast.targets[0], ast.Subscript) and unparse(n.ast.targets[0].value) in rec]
+    run.floor("R10h", "stores into the options merge record", len(stores), 1)
+    for n in stores:
+        loops = [b for b in fa.cfg.dominators()[n] if b.kind == "branch" and b.is_for and b.polarity]
+        key = val = None
+        if loops and isinstance(loops[-1].stmt.target, ast.Tuple) and len(loops[-1].stmt.target.elts) == 2:
+            key, val = (unparse(x) for x in loops[-1].stmt.target.elts)
+        ok_shape = key is not None and unparse(n.ast.targets[0].slice) == key and unparse(n.ast.value) == val \
+            and "locals()" in unparse(loops[-1].stmt.iter)
+        run.check("R10h", f, "the record is filled from the constructor's own arguments", ok_shape,
+                  construct="options record shape", message=f"`{norm_stmt(n.ast)}` is not `record[name] = value` inside the "
+                  f"loop over locals()", node=n.ast)
+        if not ok_shape:
+            continue
+        allowed = {(f"unprovided({val})", False), (f"{key}.startswith('_')", False), (f"hasattr(self, {key})", True)}
+        inner = []
+        for b in fa.facts.branch_facts(n):
+            if fa.cfg.dominates(loops[-1], b) and b is not loops[-1]:
+                inner += [(unparse(a).replace('"', "'"), bool(p)) for a, p in decompose(b.test, b.polarity)]
+        extra = [t for t in inner if t not in allowed]
+        run.check("R10h", f, "an option that was passed is recorded whatever its value", not extra,
+                  construct="options record skips passed options",
+                  message=f"Options.__init__: `{norm_stmt(n.ast)}` additionally requires "
+                          + ", ".join(f"`{t}`={p}" for t, p in extra)
+                          + ": an option passed explicitly with such a value is not part of the merge record",
+                  necessity="Options.__and__ / generate_from / runtime options copy recorded keys only: "
+                            "loose & Options(invalid_items='throw', ignore_constraints=False) stays loose, and "
+                            "Cls.__from__(data, options=Options(invalid_values='throw')) keeps the class's exclude policy",
+                  node=n.ast)
+
+
+def r10g(run, rule="R10g"):
+    """entering a route always opens a new layer: RuntimeContext.enter returns a freshly constructed context on every
+    path (error isolation of combinator arguments, items and fields hangs on the layer being the caller's alone)"""
+    f = run.repo.func("utype.parser.options", "RuntimeContext.enter")
+    fa = analysis(f)
+    rets = [n for n in fa.cfg.nodes if n.kind == "stmt" and isinstance(n.ast, ast.Return) and fa.cfg.is_live(n)]
+    run.floor(rule, "returns of RuntimeContext.enter", len(rets), 1)
+    for n in rets:
+        v = n.ast.value
+        fresh = isinstance(v, ast.Call) and (unparse(v.func) in ("self.__class__", "RuntimeContext", "type(self)", "cls"))
+        if not fresh and isinstance(v, ast.Name):
+            defs = fa.rd.defs_of(n, v.id)
+            fresh = bool(defs) and all(d.kind == "stmt" and isinstance(d.ast, ast.Assign) and isinstance(d.ast.value, ast.Call)
+                                       and unparse(d.ast.value.func) in ("self.__class__", "RuntimeContext", "type(self)")
+                                       for d in defs)
+        parent = fresh and isinstance(v, ast.Call) and kwarg(v, "context") is not None and unparse(kwarg(v, "context")) == "self"
+        run.check(rule, f, f"`{norm_stmt(n.ast)[:50]}` hands out a new layer whose parent is this context",
+                  fresh and (parent or not isinstance(v, ast.Call)),
+                  construct=f"enter() returns {unparse(v)[:40] if not fresh else 'a layer without parent'}",
+                  message=f"RuntimeContext.enter: `{norm_stmt(n.ast)[:70]}` does not construct a new context with "
+                          f"context=self: callers that isolate an attempt with `with context.enter(...)` share the layer",
+                  necessity="errors recorded by one argument of a combinator (or one item) stay in the context the next "
+                            "one is judged in: AnyOf rejects although an argument accepts, OneOf / Not accept what they "
+                            "must reject", node=n.ast)
+
+
 def check(run):
-    run.rules_run += ["R10-policy", "R10a", "R10b", "R10c", "R10d", "R10e", "R10f"]
+    run.rules_run += ["R10-policy", "R10a", "R10b", "R10c", "R10d", "R10e", "R10f", "R10g", "R10h"]
     run.explain("C10: the may-return model of handle_error is validated against its source; (R10a) at each of the "
                 "non-forced handle_error sites the code after the call does not read variables whose only binding "
                 "is the failed try body (stale/unbound), nor index past a fallen-through range check; (R10b) every "
@@ -396,6 +463,8 @@ def check(run):
     r10d(run)
     r10e(run, c04.in_scope_functions(run))
     r10f(run)
+    r10h(run)
+    r10g(run)
     # shared clauses that are necessary for C10 as well
     from . import c06, c07
     pd, A, B = c06.siblings(run)
